@@ -106,7 +106,9 @@ func main() {
 		os.Exit(2)
 	}
 	start := time.Now()
-	res := obtain(abs, *tier, *noCache)
+	// the analysis of the tree is the same in both tiers (one cache entry);
+	// the thorough tier adds the property's own sensitivity suite
+	res := obtain(abs, "quick", *noCache)
 	kf := loadKnown()
 
 	props := []string{*prop}
@@ -124,6 +126,10 @@ func main() {
 	}
 	exit := 0
 	for _, id := range props {
+		res.Mutants = nil
+		if *tier == "thorough" {
+			res.Mutants = obtainMutants(abs, id, *noCache)
+		}
 		if verdict(res, kf, id, *tier, *dump, !*noEv, time.Since(start).Seconds()) {
 			exit = 1
 		}
@@ -168,9 +174,10 @@ func digestTree(root, tier string) string {
 		}
 	}
 	fmt.Fprintf(h, "tier=%s root=%s\n", tier, root)
-	if tier == "thorough" {
-		// the sensitivity suite is an input of the thorough tier
-		ms, _ := filepath.Glob(filepath.Join(verifDir, "mutants", "*.patch"))
+	if strings.HasPrefix(tier, "mutants:") {
+		// the sensitivity suite of one property is an input of its
+		// thorough tier
+		ms, _ := filepath.Glob(filepath.Join(verifDir, "mutants", strings.TrimPrefix(tier, "mutants:")+"-*.patch"))
 		sort.Strings(ms)
 		for _, m := range ms {
 			b, _ := os.ReadFile(m)
@@ -179,6 +186,41 @@ func digestTree(root, tier string) string {
 		}
 	}
 	return hex.EncodeToString(h.Sum(nil))[:32]
+}
+
+// obtainMutants runs (or reads from the cache) the sensitivity suite of one
+// property: every /verif/mutants/<id>-*.patch applied to a scratch copy of
+// the current tree must be reported by the analyser.
+func obtainMutants(root, id string, noCache bool) *MutantReport {
+	if noCache {
+		return runMutants(root, id)
+	}
+	cacheDir := filepath.Join(verifDir, ".cache")
+	os.MkdirAll(cacheDir, 0o755)
+	lock, err := os.OpenFile(filepath.Join(cacheDir, "lock-mutants"), os.O_CREATE|os.O_RDWR, 0o644)
+	if err == nil {
+		syscall.Flock(int(lock.Fd()), syscall.LOCK_EX)
+		defer func() {
+			syscall.Flock(int(lock.Fd()), syscall.LOCK_UN)
+			lock.Close()
+		}()
+	}
+	dg := digestTree(root, "mutants:"+id)
+	cf := filepath.Join(cacheDir, dg+".mutants.json")
+	if b, err := os.ReadFile(cf); err == nil {
+		var r MutantReport
+		if json.Unmarshal(b, &r) == nil {
+			return &r
+		}
+	}
+	rep := runMutants(root, id)
+	if b, err := json.Marshal(rep); err == nil {
+		tmp := cf + ".tmp" + strconv.Itoa(os.Getpid())
+		if os.WriteFile(tmp, b, 0o644) == nil {
+			os.Rename(tmp, cf)
+		}
+	}
+	return rep
 }
 
 // obtain returns the analysis result for the current tree, from the cache
@@ -277,9 +319,6 @@ func analyse(root, tier string) *Result {
 		res.Rules = append(res.Rules, runRule(c, rule))
 	}
 	p.Timings["rules_s"] = time.Since(t1).Seconds()
-	if tier == "thorough" {
-		res.Mutants = runMutants(root)
-	}
 	res.AnalysisS = time.Since(t0).Seconds()
 	return res
 }
